@@ -133,8 +133,10 @@ type GuardSpec struct {
 	NoInline   []string
 	Through    ssa.Instruction // only exits reachable from this instruction of the function count
 	ThroughBin bool            // restrict to exits reachable from the (single) matched BinAssume comparison
-	// AllowNoSuccessBaseline: do not require that the function can succeed without assumptions
-	Depth int
+	// ArgsMayExclude: the abstract arguments alone may already exclude acceptance (the baseline run
+	// that guards against vacuity is then made without them)
+	ArgsMayExclude bool
+	Depth          int
 }
 
 // guard decides a GUARD rule on f and records one obligation.
@@ -184,7 +186,7 @@ func (c *Ctx) guard(p *Program, rule, what string, f *ssa.Function, g GuardSpec)
 		}
 	}
 	qb := mk(false)
-	if len(g.Assumes)+len(g.BinAssumes)+len(g.ValAssumes) > 0 && len(g.Args) > 0 {
+	if len(g.Assumes)+len(g.BinAssumes)+len(g.ValAssumes) > 0 && len(g.Args) > 0 && !g.ArgsMayExclude {
 		// the abstract arguments alone must not already exclude acceptance
 		qb = mk(true)
 		if qb != nil {
